@@ -114,36 +114,7 @@ func c05(c *Ctx) {
 	}
 
 	// ---- R05.A ------------------------------------------------------------------------------------
-	if f := c.fn("R05.A", load.IgePkg, "", "Encrypt"); f != nil {
-		// the buffer handed to doAES256IGEencrypt as input: its length as a function of len(msg)
-		var size ssa.Value
-		for _, cs := range an.CallsNamed(f, "(*"+load.IgePkg+".Cipher).doAES256IGEencrypt") {
-			if len(cs.Common.Args) == 3 {
-				size = makeSize(cs.Common.Args[1])
-			}
-		}
-		if size == nil {
-			r.Undecide("R05.A", "pad:ige.Encrypt", c.pos(f.Pos()), "size of the padded buffer not found")
-		} else {
-			var bad []string
-			for n := int64(0); n < 64; n++ {
-				total, ok := an.EvalInt(size, func(v ssa.Value) (int64, bool) {
-					if an.IsLenOf(v, func(x ssa.Value) bool { return x == ssa.Value(f.Params[0]) }) {
-						return n, true
-					}
-					return 0, false
-				})
-				if !ok {
-					bad = []string{"expression not evaluable"}
-					break
-				}
-				if pad := total - n; pad < 0 || pad > 15 || total%16 != 0 {
-					bad = append(bad, sprintf("len=%d→pad %d", n, pad))
-				}
-			}
-			r.Check(len(bad) == 0, "R05.A", "pad:ige.Encrypt", c.pos(size.Pos()), "tabulated for len 0..63: "+strings.Join(bad, ", "))
-		}
-	}
+	c.checkEncryptPad("R05.A")
 	if f := c.fn("R05.A", load.IgePkg, "", "EncryptMessageWithTempKeys"); f != nil {
 		// pad = argument of the random-bytes call; total = 20 + len(msg) + pad
 		var pad ssa.Value
@@ -351,4 +322,39 @@ func c05Strip(c *Ctx, f *ssa.Function) {
 	}
 	r.Check(len(un) == 0, "R05.S", "strip:prefix-split-guard", c.pos(fixedSlices[0].Pos()),
 		sprintf("%d constant-bound slices at offset 20; %d reachable without a len >= 20 test (a 16-byte answer passes isCorrectData)", len(fixedSlices), len(un)))
+}
+
+// checkEncryptPad tabulates the padding amount of ige.Encrypt over payload lengths 0..63.
+func (c *Ctx) checkEncryptPad(rule string) {
+	r := c.R
+	if f := c.fn(rule, load.IgePkg, "", "Encrypt"); f != nil {
+		// the buffer handed to doAES256IGEencrypt as input: its length as a function of len(msg)
+		var size ssa.Value
+		for _, cs := range an.CallsNamed(f, "(*"+load.IgePkg+".Cipher).doAES256IGEencrypt") {
+			if len(cs.Common.Args) == 3 {
+				size = makeSize(cs.Common.Args[1])
+			}
+		}
+		if size == nil {
+			r.Undecide(rule, "pad:ige.Encrypt", c.pos(f.Pos()), "size of the padded buffer not found")
+		} else {
+			var bad []string
+			for n := int64(0); n < 64; n++ {
+				total, ok := an.EvalInt(size, func(v ssa.Value) (int64, bool) {
+					if an.IsLenOf(v, func(x ssa.Value) bool { return x == ssa.Value(f.Params[0]) }) {
+						return n, true
+					}
+					return 0, false
+				})
+				if !ok {
+					bad = []string{"expression not evaluable"}
+					break
+				}
+				if pad := total - n; pad < 0 || pad > 15 || total%16 != 0 {
+					bad = append(bad, sprintf("len=%d→pad %d", n, pad))
+				}
+			}
+			r.Check(len(bad) == 0, rule, "pad:ige.Encrypt", c.pos(size.Pos()), "tabulated for len 0..63: "+strings.Join(bad, ", "))
+		}
+	}
 }
